@@ -2433,7 +2433,10 @@ impl LineBuf {
 			let pos = start + start_col;
 			self.insert_str_at(pos, &last_diff);
 		}
-
+		// The copies belong to the same change: undo and redo have to cover them
+		if let Some(edit) = self.undo_stack.last_mut() {
+			edit.new = self.buffer.clone();
+		}
 	}
 	pub fn eval_motion(&mut self, verb: Option<&Verb>, motion: MotionCmd) -> MotionKind {
 		match motion {
